@@ -18,11 +18,11 @@ CHECKS = {
  "C13": ("proof", "contract of TimerScheduler.advance discharged with the loop rule over unbounded integers, cadence lemma over the contract, reset/setters, snapshot save/load round trip of the scheduler state, ISR mapping of _tick_timers; WAIT loop bounded (Python half); Rust TimerContext::tick_timers only by a bounded stand-in on the compiled crate", "Rust half not proved: bounded stand-in (never counted); _simulate_wait bounded (n <= 4/6 cycles); " + TB, "5 C13"),
  "C14": ("proof", "per-key debounce/repeat automaton contract for all states/thresholds, key operations establish the invariant, FIFO against its sequence view for all head/tail pairs, scan_tick, KEYI gating; row computation bounded in the number of non-idle keys (Python half); Rust KeyboardMatrix only by a bounded law check on the compiled crate", "Rust half not proved: bounded stand-in (never counted); " + TB, "5 C14"),
  "C15": ("proof", "HD61202 protocol contracts per operation on symbolic chip state/VRAM, chip-select routing for all 16 decodings, get_snapshot() agreement after every access, and the pixel map (7680 cells each proved to be one inverted VRAM bit, pairwise distinct) (Python half); Rust LcdController only by a bounded stand-in on the compiled crate", "Rust half not proved: bounded stand-in (never counted); " + TB, "5 C15"),
+ "C16": ("proof", "Python half only: restore-point contract of the real PCE500Emulator.save_snapshot/load_snapshot pair on two real emulators with the state components symbolic: every register incl. scratch registers and call bookkeeping, power state, counters, interrupt latches, timer scheduler, keyboard matrix (one arbitrary key, strobe registers, queue), both LCD chips incl. every VRAM byte, and the memory image (external image, ROM / RAM-overlay / card payloads as z3 arrays, every content) are restored exactly; metadata fields vs. the Rust loader's structs as ground obligations; 'the future is unchanged' follows because step() is a deterministic function of the object graph -- that nothing outside the stated view differs is checked by a bounded deep-diff + lockstep companion on concrete scenarios (reported under bounded_parts, not counted as proved)", TB + "; json/zipfile contract stubs; the Rust runtime's save/load is NOT decided", "10.7"),
  "C17": ("proof", "one ground equality per duplicated table entry / constant across Python modules and Rust source text (tokenised), decided by evaluation; complete over the finite item set", "Rust side is read as source text, not compiled", "5 C17"),
 }
 NA = {
  "C06": "statement about sc62015/core/src/llama/eval.rs (Rust); no deductive verifier for Rust is installed and running both cores side by side is differential testing, a different family",
- "C16": "relational property over the whole machine state and all continuations; no per-function contract within reach expresses it (register-blob layout and pack/unpack inverse are decided under C08/C17)",
  "C18": "async Rust scheduler (futures, wakers, thread-locals); no Rust verifier and the property quantifies over schedules",
 }
 PENDING = {
